@@ -41,7 +41,8 @@ type VdrSpec struct {
 	Adversarial   bool    `json:"adversarial"`
 	LateConsumers bool    `json:"late"` // consumers are finished as late as possible
 	TimeoutS      int     `json:"timeout_s"`
-	NoExtra       bool    `json:"no_extra"` // stages write nothing beyond what their outputs name (and tmp files)
+	NoExtra       bool    `json:"no_extra"`   // stages write nothing beyond what their outputs name (and tmp files)
+	FailChunk     bool    `json:"fail_chunk"` // the first chunk of a volatile splitting stage fails once; mrp is restarted (retry)
 }
 
 type vdrEnt struct {
@@ -76,6 +77,9 @@ type VdrModelCheck struct {
 	Req    []string `json:"req"`
 	Expect string   `json:"expect"`
 	What   string   `json:"what"`
+	// compare only what happened to the disk and the report (the bookkeeping
+	// maps are rebuilt when mrp restarts)
+	DiskOnly bool `json:"disk_only,omitempty"`
 }
 
 type VdrResult struct {
@@ -127,6 +131,8 @@ type vdrRun struct {
 	lastDone    map[string]bool
 	preNames    map[string]vdrArgNames // fork dir -> names per argument at the pre-final snapshot
 	stageOfNode map[string]*syntax.Stage
+	faultSet    bool
+	retried     bool
 }
 
 type vdrSnapshot struct {
@@ -380,7 +386,23 @@ func pathsInJSON(b []byte, prefix string) []string {
 func (v *vdrRun) outsHook(job *TAJob, outs map[string]interface{}) {
 	r := v.r
 	stage, _ := r.Ast.Callables.Table[job.StageName].(*syntax.Stage)
-	if stage == nil || job.ShellName == "split" {
+	if stage == nil {
+		return
+	}
+	if job.ShellName == "split" {
+		// the split leaves data in its temp directory
+		td := path.Join(job.MetadataPath, "tmp")
+		if st, err := os.Stat(td); err == nil && st.IsDir() {
+			for i := 0; i < 2; i++ {
+				p := path.Join(td, fmt.Sprintf("split_%d.tmp", i))
+				c := fmt.Sprintf("split tmp %d %s", i, job.Key)
+				if os.WriteFile(p, []byte(c), 0o644) == nil {
+					r.Written[p] = c
+					v.writtenBy[v.rel(p)] = job.Key
+					v.tmpFiles[v.rel(p)] = true
+				}
+			}
+		}
 		return
 	}
 	write := func(p, content string) bool {
@@ -501,6 +523,13 @@ func (v *vdrRun) outsHook(job *TAJob, outs map[string]interface{}) {
 }
 
 func (v *vdrRun) launchHook(job *TAJob) {
+	if v.spec.FailChunk && !v.faultSet && job.ShellName == "main" {
+		if st, _ := v.r.Ast.Callables.Table[job.StageName].(*syntax.Stage); st != nil && st.Split {
+			v.faultSet = true
+			v.r.Opts.Faults = append(v.r.Opts.Faults, &Fault{JobKey: job.Key, Kind: "errors"})
+			v.hist("chunk-failure-injected")
+		}
+	}
 	ps := pathsInJSON(job.Args, v.psdir)
 	rels := make([]string, 0, len(ps))
 	for _, p := range ps {
@@ -704,6 +733,21 @@ func (v *vdrRun) loop() {
 		}
 		done, progress := r.stepOnce()
 		if done {
+			if r.Final == "failed" && v.spec.FailChunk && v.faultSet && !v.retried {
+				// the operator restarts mrp; the failed chunk is reset and retried
+				v.retried = true
+				r.killPending(0)
+				r.Final, r.ErrMsg = "", ""
+				v.observe(false)
+				if err := r.Restart(); err != nil {
+					r.Final = "error:" + err.Error()
+					return
+				}
+				v.observe(true)
+				v.hist("restart-after-chunk-failure")
+				idle = 0
+				continue
+			}
 			return
 		}
 		r.ps.VerifStorageBarrier()
